@@ -387,3 +387,47 @@ func VerifHarness_C13_EvalChain() {
 	vsymAssert(n == 2 && it.Err() == nil, "one value per step")
 	vsymReach("C13_eval_chain")
 }
+
+// C13-O3: scalar operands in odd places, from query text: a scalar leading the
+// right operand of a set operator (`v and 2 * w` reads `v and (2 * w)`), and a
+// scalar in redundant parentheses (`(2) * v`).
+func VerifHarness_C13_ScalarOperands() {
+	cases := []struct {
+		q     string
+		want  float64
+		empty bool
+		id    string
+	}{
+		{"vector(1) and 2 * vector(3)", 1, false, "F31"},
+		{"vector(1) or 2 * vector(3)", 1, false, "F31"},
+		{"vector(1) unless 2 * vector(3)", 0, true, "F31"},
+		{"vector(5) and 2 > vector(3)", 5, false, "F31"},
+		{"2 * vector(3) and vector(1)", 6, false, ""},
+		{"(2) * vector(3)", 6, false, "F32"},
+		{"vector(3) * (2)", 6, false, "F32"},
+		{"vector(3) - ((2))", 1, false, "F32"},
+		{"2 * vector(3)", 6, false, ""},
+	}
+	c := cases[vsymChoice("query", len(cases))]
+	expr, err := logql.Parse(c.q, logql.ParseOptions{})
+	if err != nil && c.id == "F31" {
+		vsymFinding("F31", true, "a set operator rejects a right operand that starts with a scalar (`vector(1) and 2 * vector(3)`): the no-scalar-operand rule is applied to the first primary of the right side, before the tighter-binding operators are attached to it")
+		return
+	}
+	vsymAssert(err == nil, "the query parses")
+	t0 := time.Unix(1700000000, 0)
+	it, err := build(expr, nil, EvalParams{Start: t0, End: t0, Step: time.Second})
+	if err != nil && c.id == "F32" {
+		vsymFinding("F32", true, "a scalar in redundant parentheses is not recognised as a scalar operand: `(2) * vector(3)` fails with `expression *logql.ParenExpr is not supported yet`")
+		return
+	}
+	vsymAssert(err == nil, "the query builds")
+	var st Step
+	vsymAssert(it.Next(&st), "one step")
+	if c.empty {
+		vsymAssert(len(st.Samples) == 0, "the conventional reading yields nothing")
+	} else {
+		vsymAssert(len(st.Samples) == 1 && st.Samples[0].Data == c.want, "the value is the one of the conventional reading")
+	}
+	vsymReach("C13_scalar_operands")
+}
